@@ -143,7 +143,9 @@ func c12buildGrids(thorough bool) {
 	// counters at the 64-bit boundary
 	var prog []resp.Value
 	for _, v := range []string{"9223372036854775807", "9223372036854775806", "-9223372036854775808", "-9223372036854775807", "0", "abc", "1.5", "", " 1", "12x"} {
-		for _, op := range [][]string{{"INCR", "c"}, {"DECR", "c"}, {"INCRBY", "c", "1"}, {"INCRBY", "c", "9223372036854775807"}, {"INCRBY", "c", "-9223372036854775808"}, {"DECRBY", "c", "9223372036854775807"}, {"DECRBY", "c", "-9223372036854775808"}, {"DECRBY", "c", "1"}} {
+		for _, op := range [][]string{{"INCR", "c"}, {"DECR", "c"}, {"INCRBY", "c", "1"}, {"INCRBY", "c", "9223372036854775807"}, {"INCRBY", "c", "-9223372036854775808"}, {"DECRBY", "c", "9223372036854775807"}, {"DECRBY", "c", "-9223372036854775808"}, {"DECRBY", "c", "1"},
+			// what is not an integer: a lone sign, a sign pair, digits behind a space
+			{"INCRBY", "c", "-"}, {"INCRBY", "c", "+"}, {"DECRBY", "c", "-"}, {"DECRBY", "c", "+"}, {"INCRBY", "c", "--1"}, {"INCRBY", "c", ""}, {"DECRBY", "c", "1 "}} {
 			prog = append(prog, cmd("SET", "c", v), cmd(op...), cmd("GET", "c"))
 		}
 	}
@@ -214,12 +216,16 @@ func c12random(r *rng.R) []resp.Value {
 		case 8:
 			prog = append(prog, cmd("DECR", sk()))
 		case 9:
-			prog = append(prog, cmd("INCRBY", sk(), rng.Pick(r, []string{"1", "-1", "100", "9223372036854775807", "-9223372036854775808", "0"})))
+			prog = append(prog, cmd("INCRBY", sk(), rng.Pick(r, []string{"1", "-1", "100", "9223372036854775807", "-9223372036854775808", "0", "-", "+"})))
 		case 10:
 			prog = append(prog, cmd("DECRBY", sk(), rng.Pick(r, []string{"1", "-1", "100", "9223372036854775807", "-9223372036854775808", "0"})))
 		case 11:
 			prog = append(prog, cmd("STRLEN", sk()))
 		case 12:
+			if r.Chance(1, 8) {
+				prog = append(prog, cmd(rng.Pick(r, []string{"GETRANGE", "SUBSTR"}), sk(), rng.Pick(r, []string{"-", "+", "", "0"}), rng.Pick(r, []string{"-", "+", "2", "x"})))
+				break
+			}
 			prog = append(prog, cmd("GETRANGE", sk(), fmt.Sprint(r.Range(-8, 8)), fmt.Sprint(r.Range(-8, 8))))
 		case 13:
 			prog = append(prog, cmd("HMSET", hk(), f(), v(), f(), v()))
